@@ -99,8 +99,12 @@ type OS struct {
 	// reaches it: that operation and every later one of that actor fail with EIO, unrecorded.
 	CrashAfter int
 	// Now supplies mtimes for Stat results when non-nil (simulated clock stamps).
-	Now    func() time.Time
-	mtimes map[string]time.Time
+	Now       func() time.Time
+	mtimes    map[string]time.Time
+	lastStamp time.Time
+	// AfterEvent, if set, is called (without o.mu held) after every recorded mutating event:
+	// the place for invariants that must hold "at every moment".
+	AfterEvent func(e *Event)
 
 	// counters
 	NOps, NMut, NFaults int
@@ -270,7 +274,13 @@ func (o *OS) record(e Event) {
 	if o.Now != nil {
 		switch e.Kind {
 		case EvCreate, EvWrite, EvTruncate:
-			o.mtimes[o.pathOfIno(e)] = o.Now()
+			// nanosecond-granular, strictly increasing stamps (two updates never share an mtime)
+			st := o.Now()
+			if !st.After(o.lastStamp) {
+				st = o.lastStamp.Add(time.Nanosecond)
+			}
+			o.lastStamp = st
+			o.mtimes[o.pathOfIno(e)] = st
 		case EvRename:
 			if t, ok := o.mtimes[e.Path]; ok {
 				o.mtimes[e.Path2] = t
@@ -278,11 +288,15 @@ func (o *OS) record(e Event) {
 			}
 		}
 	}
+	ae := o.AfterEvent
 	o.mu.Unlock()
+	if ae != nil {
+		ae(&e)
+	}
 }
 
 func (o *OS) pathOfIno(e Event) string {
-	if e.Path != "" {
+	if e.Kind == EvCreate && e.Path != "" {
 		return e.Path
 	}
 	for p, i := range o.inoOf {
@@ -709,7 +723,32 @@ func (o *OS) readDir(name string) ([]os.DirEntry, error) {
 	if err := o.pre(&Call{Op: "readdir", Path: rp}); err != nil {
 		return nil, pathErr("readdir", name, err)
 	}
-	return os.DsimRealReadDir(name)
+	ents, err := os.DsimRealReadDir(name)
+	if o.Now != nil {
+		for i, e := range ents {
+			erp := e.Name()
+			if rp != "." {
+				erp = rp + "/" + e.Name()
+			}
+			ents[i] = simDirEntry{DirEntry: e, o: o, rp: erp}
+		}
+	}
+	return ents, err
+}
+
+// simDirEntry makes DirEntry.Info report the simulated mtime.
+type simDirEntry struct {
+	os.DirEntry
+	o  *OS
+	rp string
+}
+
+func (d simDirEntry) Info() (os.FileInfo, error) {
+	fi, err := d.DirEntry.Info()
+	if err != nil {
+		return fi, err
+	}
+	return d.o.withMtime(d.rp, fi), nil
 }
 
 // Adopt registers files that already exist under Root (e.g. a crash image that was just
